@@ -7,10 +7,11 @@ from lib.core import existing_modules
 from props import c01, c03, c05, c06, c09, c10, c11
 
 ID = "C15"
-LEVEL = "other"
+LEVEL = "proof"
 LEAN_MODULES = ["Sonic.Props.C15"] + existing_modules(["Sonic.Props.C10", "Sonic.Props.C11", "Sonic.Props.C01"])
 REQUIRED_THEOREMS = ["Sonic.Props.C15." + n for n in ["C15_string_width_independent", "C15_quote_width_independent", "C15_memcmp_avx2_eq_sse",
-                                                     "C15_memcmp_prod_eq_san", "C15_parse_width_independent"]]
+                                                     "C15_memcmp_prod_eq_san", "C15_parse_width_independent", "C15_serialize_config_independent",
+                                                     "C15_ondemand_width_independent", "C15_lazy_width_independent"]]
 CONFIGS = [("avx2", "prod"), ("sse", "prod"), ("dyn", "prod"), ("avx2", "san"), ("sse", "san"), ("dyn", "san")]
 SRC = {"c01": c01, "c03": c03, "c05": c05, "c06": c06, "c09": c09, "c10": c10, "c11": c11}
 RULE = ("the corpus lines of C01 (accept/reject: valid, prefixes, mutations), C03 (trees), C05 (string literals), C06 (serialisation), C09 "
@@ -24,10 +25,16 @@ EXPLANATION = ("The builds differ in the vector width of the scanners, in the ke
                "parameter. The run compares the six compiled binaries with each other on a shared corpus.")
 ASSUMPTIONS = ["a CPU with SSE4.2 and AVX2 (the target(\"default\") dispatch stubs are never selected)"]
 TRUSTED = ["the dispatch wrappers in x86_ifuncs/*.h are pure forwards (exercised by the dyn binaries)"]
-LEVEL_TEXT = ("Width/kernel-independence theorems (corollaries of the per-component proofs) + six-way differential of the compiled "
-              "configurations on the shared corpus.")
+LEVEL_TEXT = ("Machine-checked proof (Lean 4): every component with configuration-dependent code is modelled with the configuration as a "
+              "parameter (vector width 16 = SSE kernels / 32 = AVX2 kernels, sanitizer tail, write limit; runtime dispatch selects one of the two "
+              "kernels) and proved equal to a configuration-free spec, hence pairwise identical: the full parser incl. error code/offset except "
+              "inside a malformed string literal - the exception the property allows - (C15_parse_width_independent), string decoding "
+              "(C15_string_width_independent), quoting (C15_quote_width_independent), key comparison (C15_memcmp_*), serialisation bytes "
+              "(C15_serialize_config_independent), on-demand lookup (C15_ondemand_width_independent), UpdateLazy (C15_lazy_width_independent); "
+              "number conversion and number printing have no configuration-dependent code except the SSE splitter of itoa (C08). The six "
+              "compiled configurations are tied to the models and to each other by the cross-configuration differential on the shared corpus.")
 LEVEL_NOTE = "Trusted: Lean kernel; standard axioms; harness."
-TECHNIQUE = "Lean 4 corollaries (results independent of vector width / kernel) + cross-configuration differential"
+TECHNIQUE = "Lean 4 proofs that every component model is independent of its configuration parameter + cross-configuration differential"
 
 
 def generate(rng, tier):
